@@ -43,13 +43,14 @@ type wConnAcct struct {
 }
 
 type WireOracles struct {
-	forged [2][]int64 // 1-RTT packet numbers of forged packets played to the client (0) / server (1)
-	w      *World
-	n      *Nodes
-	res    *KResult
-	on     map[string]bool
-	accts  map[*TapConn]*wConnAcct
-	fails  int
+	refusedHello bool       // the scenario makes the server refuse the ClientHello (e.g. a wrong initial_source_connection_id)
+	forged       [2][]int64 // 1-RTT packet numbers of forged packets played to the client (0) / server (1)
+	w            *World
+	n            *Nodes
+	res          *KResult
+	on           map[string]bool
+	accts        map[*TapConn]*wConnAcct
+	fails        int
 }
 
 func wOraclesEnabled(def string) map[string]bool {
@@ -133,6 +134,12 @@ func (o *WireOracles) onSend(rec *DgramRec, data []byte) {
 	for _, p := range rec.Pkts {
 		if p.Type == TapUnknown && p.Reset {
 			o.res.Probe("stateless-reset-on-the-wire")
+			continue
+		}
+		if o.refusedHello && p.Dir == 1 && p.Type != TapInitial && (p.Type == TapUnknown || p.Err != "") {
+			// the server refuses the ClientHello (by construction of the scenario) and says so at the Handshake and 1-RTT levels
+			// too, without a ServerHello from which the observer could derive those keys
+			o.res.Probe("close-at-higher-levels-without-server-hello")
 			continue
 		}
 		if p.Type == TapUnknown {
